@@ -36,6 +36,14 @@ Definition ad_keys_meta := unp (fun ha => if model then fw_keys_meta s (snd ha) 
 Definition ad_resources := un (fun ha => if model then fw_resources s (snd ha) else sp_resources s (snd ha)).
 Definition ad_resources_meta := un (fun ha => if model then fw_resources_meta s (snd ha) else sp_resources_meta s (snd ha)).
 
+(* the text selections an annotation selects itself (not through the annotations it targets) and the
+   annotations on a set of text selections (TextSelectionIterator::annotations) *)
+Definition leaf_ts (lf : leaf) : list (nat * nat) :=
+  match lf with LText r t _ | LAnnText _ r t _ => [(r, t)] | _ => [] end.
+Definition ts_anns (rt : nat * nat) : list nat :=
+  if model then m_ts_anns s (fst rt) (snd rt) else s_ts_anns s (fst rt) (snd rt).
+Definition ad_ts_annotations := un (fun ha => flat_map ts_anns (flat_map leaf_ts (a_leaves (snd ha)))).
+
 (* the annotations named by a list of handles, with their records *)
 Definition recs (l : list nat) : list (nat * ann) :=
   flat_map (fun h => match get_ann s h with Some a => [(h, a)] | None => [] end) l.
@@ -61,4 +69,9 @@ Definition res_annotations : list nat :=
   sort_dedup (flat_map (fun r => if model then m_res_text s r else s_res_text s r) (live_slots (ress s))).
 Definition res_annotations_meta : list nat :=
   sort_dedup (flat_map (fun r => if model then m_res_meta s r else s_res_meta s r) (live_slots (ress s))).
+Definition res_ts_annotations : list nat :=
+  sort_dedup (flat_map (fun r => match get_res s r with
+                                 | Some rs => flat_map (fun t => ts_anns (r, t)) (seq 0 (length (r_sels rs)))
+                                 | None => []
+                                 end) (live_slots (ress s))).
 End Adaptors.
